@@ -588,6 +588,21 @@ theorem ofPairs_coherent (pairs : List (List K × V)) (hne : ∀ e ∈ pairs, e.
   ⟨keys_dictOf_nodup pairs, inv_reachable _ (ctorOps_valid hne), (run_refines _ (ctorOps_valid hne)).1,
     getitem_last_assigned _ (ctorOps_valid hne) k⟩
 
+/-- **C15.36** … and for arguments with single keys (a mapping, pairs, keywords), repeated or not: every
+    key holds the value of the LAST pair that names it -/
+theorem ofPairs_single_last (pairs : List (K × V)) (k : K) :
+    getitem (ofPairs (pairs.map fun e => ([e.1], e.2))) k = lastValue pairs k := by
+  have hne : ∀ e ∈ pairs.map (fun e : K × V => ([e.1], e.2)), e.1 ≠ [] := by
+    intro e he; obtain ⟨x, _, rfl⟩ := List.mem_map.mp he; simp
+  rw [(ofPairs_coherent _ hne k).2.2.2]
+  unfold ctorOps
+  rw [dictOf_map_single, List.map_map]
+  have := lastAssigned_singles (dictOf pairs) (keys_dictOf_nodup pairs) k none
+  rw [dget_dictOf] at this
+  simp only [Function.comp_def]
+  rw [this]
+  cases lastValue pairs k <;> rfl
+
 /-! ## non-vacuity: the hypotheses are satisfiable and the statements speak about real histories -/
 
 /-- the docstring example of `MultiKeyDict` -/
@@ -694,6 +709,8 @@ example : (∀ ks : List Nat, (SKeyArg.tuple [.ok 1, .nonStr]).items ≠ ks.map 
 example : (ofPairs ([([1], 5), ([2], 6), ([1], 6), ([3, 4], 5)] : List (List Nat × Nat))).store
     = [([1, 2], 6), ([3, 4], 5)] := by decide
 example : ∀ e ∈ ([([1], 5), ([2], 6), ([1], 6), ([3, 4], 5)] : List (List Nat × Nat)), e.1 ≠ [] := by decide
+example : lastValue ([(1, 5), (2, 6), (1, 6)] : List (Nat × Nat)) 1 = some 6 ∧
+    getitem (ofPairs ([(1, 5), (2, 6), (1, 6)].map fun e : Nat × Nat => ([e.1], e.2))) 1 = some 6 := by decide
 
 end ALV.Props.C15
 
